@@ -157,13 +157,13 @@ pub fn run(tier: Tier) -> i32 {
     // typed values embedded in a user's own serde type (Option / Vec / map / tuple fields)
     let scal = u::scalars(Tier::Quick);
     let l = par_for(scal.len(), |i, local| {
-        check_value(&scal[i], local, true, &user_record_roundtrip);
+        super::common::check_value_as(&scal[i], local, true, "user-record", &user_record_roundtrip);
         local.count("user-records");
     });
     run.absorb(l);
     let conts: Vec<V> = super::c01::history_pool();
     let l = par_for(conts.len(), |i, local| {
-        check_value(&conts[i], local, true, &user_record_roundtrip);
+        super::common::check_value_as(&conts[i], local, true, "user-record", &user_record_roundtrip);
         local.count("user-records");
     });
     run.absorb(l);
@@ -270,6 +270,9 @@ pub fn replay(case: &J) -> Verdict {
         let _ = hayson_observation(&w);
         let after = hayson_observation(&v);
         return if alone == after { Ok(()) } else { Err(("history-changes-output:hayson-codec".into(), format!("alone {alone}, after {after}"))) };
+    }
+    if case["oracle"] == "user-record" {
+        return replay_value(case, &user_record_roundtrip);
     }
     replay_value(case, &hayson_roundtrip)
 }
